@@ -82,6 +82,19 @@ func blockScenarios(tier string) []*Scenario {
 	for _, w := range [][]string{{"BLPOP", "k", "0"}, {"BRPOP", "k", "0"}, {"BLMOVE", "k", "m", "LEFT", "RIGHT", "0"}, {"BRPOPLPUSH", "k", "m", "0"}, {"BLMPOP", "0", "1", "k", "LEFT"}} {
 		add(&linScenario{name: "block/" + w[0] + "||RPUSH", threads: [][][]string{W(w...), W("RPUSH", "k", "a")}})
 	}
+	// the same with key names and elements nobody tries: the empty name, names and elements that are not
+	// text, long ones (a seeded change of wave 6 took the empty key name for "no key" in the wake-up path)
+	for ni, k := range []string{"", "\r\n", "\x00\xff", strings.Repeat("K", 300)} {
+		e := []string{"", "\x00", "e\r\n", strings.Repeat("E", 300)}[ni]
+		for wi, w := range [][]string{{"BLPOP", k, "0"}, {"BRPOP", "other", k, "0"}, {"BLMOVE", k, "m", "LEFT", "RIGHT", "0"}, {"BRPOPLPUSH", k, k + "2", "0"}, {"BLMPOP", "0", "2", "other", k, "LEFT"}} {
+			if tier != "thorough" && ni > 0 && wi != ni {
+				continue
+			}
+			add(&linScenario{name: fmt.Sprintf("block/odd-key%d/%s|RPUSH", ni, w[0]), threads: [][][]string{W(w...), W("RPUSH", k, e)}, phases: []int{0, 1}})
+		}
+		add(&linScenario{name: fmt.Sprintf("block/odd-key%d/BLPOP|LMOVE-onto", ni), setup: [][]string{{"RPUSH", "src", e}}, threads: [][][]string{W("BLPOP", k, "0"), W("LMOVE", "src", k, "LEFT", "LEFT")}, phases: []int{0, 1}})
+		add(&linScenario{name: fmt.Sprintf("block/odd-key%d/BLPOP|RENAME-onto", ni), setup: [][]string{{"RPUSH", "src", e}}, threads: [][][]string{W("BLPOP", k, "0"), W("RENAME", "src", k)}, phases: []int{0, 1}, noLin: true})
+	}
 	add(&linScenario{name: "block/BRPOP||LPUSH2", threads: [][][]string{W("BRPOP", "k", "0"), W("LPUSH", "k", "a", "b")}})
 	add(&linScenario{name: "block/BLMPOP2keys||RPUSH3", threads: [][][]string{W("BLMPOP", "0", "2", "k1", "k2", "LEFT", "COUNT", "2"), W("RPUSH", "k2", "a", "b", "c")}})
 	// 2-4: two waiters blocked one after the other, then pushes
